@@ -113,7 +113,7 @@ def run_all(ctx, cases, want):
     """want: 'counts' | 'caps' | 'contents' — which divergences this property reports."""
     pid = ctx.pid
     ident = lambda s: "none" if s is None else s
-    ctx.correspond("alloc", cases, canon=ident,
+    ctx.correspond("alloc", cases, canon=ident, skip=lambda m: False,
                    nontrivial=lambda c, a, b: b is not None and len(b.split()) >= 3)
     impl = vlib.run_impl("alloc", cases)
     f2 = vlib.run_model("alloc", ["f2" + c[3:] for c in cases])
@@ -145,6 +145,8 @@ def run_all(ctx, cases, want):
                 ctx.histogram("result", "panic")
                 break
             res, cnt, dg = gen_alloc.norm_step(s).rsplit("/", 2)
+            if s[0] == "m" or s.startswith("vu"):
+                ctx.histogram("representation", s[:2])
             ctx.histogram("result", res.split(":")[0] if not res.startswith("e:") else res)
             na, np_, nh = (int(x) for x in cnt.split(","))
             # monitors that need no reference -----------------------------------------------
